@@ -45,7 +45,8 @@ func NewReader(r io.Reader) io.ReadCloser {
 		// wrapping it in a second bufio.Reader reads ahead of the stream end.
 		rr.rBuf = ur
 	} else {
-		rr.rBuf = bufio.NewReader(r)
+		rr.ownBuf = bufio.NewReader(r)
+		rr.rBuf = rr.ownBuf
 	}
 	return rr
 }
@@ -57,6 +58,7 @@ type decompressor struct {
 	historyBuffer [2*historySize + lookAhead]uint8
 	r             io.Reader
 	rBuf          *bufio.Reader
+	ownBuf        *bufio.Reader // the buffer created by this Reader, if any (rBuf may be the caller's)
 	err           error
 	peekSize      int
 	eof           bool
@@ -68,11 +70,14 @@ func (r *decompressor) Reset(under io.Reader, dict []byte) error {
 	if ur, ok := under.(*bufio.Reader); ok {
 		r.rBuf = ur
 	} else {
-		if r.rBuf != nil {
-			r.rBuf.Reset(under)
+		// only a buffer this Reader created may be pointed at the new source:
+		// rBuf can be a *bufio.Reader the caller passed in earlier
+		if r.ownBuf != nil {
+			r.ownBuf.Reset(under)
 		} else {
-			r.rBuf = bufio.NewReader(under)
+			r.ownBuf = bufio.NewReader(under)
 		}
+		r.rBuf = r.ownBuf
 	}
 
 	r.peekSize = 0
